@@ -22,6 +22,7 @@ CHECKS['C09'] = checks.check_C09
 CHECKS['C15'] = checks.check_C15
 CHECKS['C12'] = checks.check_C12
 CHECKS['C16'] = checks.check_C16
+CHECKS['C11'] = checks.check_C11
 
 
 def replay(pid: str, path: str) -> int:
